@@ -76,6 +76,21 @@ class VersionConverter(object):
 
         return self._parse_dict_document(parsed_doc)
 
+    @staticmethod
+    def _entry_text(content):
+        """
+        Returns the text of an entry of a parsed v1.0 JSON or YAML dictionary.
+        The JSON and YAML parsers hand out numbers, booleans and dates as
+        native objects, lxml elements only accept text.
+
+        :param content: entry of a parsed v1.0 dictionary.
+        :return: None if the entry is None, the content as string otherwise.
+        """
+        if content is None or isinstance(content, str):
+            return content
+
+        return str(content)
+
     @classmethod
     def _parse_dict_document(cls, parsed_doc):
         """
@@ -95,7 +110,7 @@ class VersionConverter(object):
                 cls._parse_dict_sections(root, parsed_doc['sections'])
             elif elem:
                 curr_element = ET.Element(elem)
-                curr_element.text = parsed_doc[elem]
+                curr_element.text = cls._entry_text(parsed_doc[elem])
                 root.append(curr_element)
 
         return ET.ElementTree(root)
@@ -120,7 +135,7 @@ class VersionConverter(object):
                     cls._parse_dict_sections(sec, section['sections'])
                 elif element:
                     elem = ET.Element(element)
-                    elem.text = section[element]
+                    elem.text = cls._entry_text(section[element])
                     sec.append(elem)
 
             parent_element.append(sec)
@@ -143,7 +158,7 @@ class VersionConverter(object):
                     cls._parse_dict_values(prop, curr_prop['values'])
                 elif element:
                     elem = ET.Element(element)
-                    elem.text = curr_prop[element]
+                    elem.text = cls._entry_text(curr_prop[element])
                     prop.append(elem)
 
             parent_element.append(prop)
